@@ -28,7 +28,7 @@ C04_CoreDirs == {<<D(n, pos)>> : n \in {"SKIP", "REQa"}, pos \in BOOLEAN}
 C04_Core == PartSet({"execp"}, {"none", "all"}, {<<>>}, {FALSE})
             \cup PartSet({"execp"}, {"none"}, C04_CoreDirs, {TRUE})
             \cup PartSet({"comment"}, {"none"}, C04_CoreDirs \cup {<<D("REQb", TRUE)>>, <<D("REQmet", TRUE)>>}, {FALSE})
-C04_Opts == {{}, {<<"SKIP", TRUE>>}, {<<"ELLIPSIS", FALSE>>}}
+C04_Opts == {{}, {<<"SKIP", TRUE>>}, {<<"ELLIPSIS", FALSE>>}, {<<"REQ", {"a"}>>}}      \* last: --options=+REQUIRES(unmet a)
 
 \* ---- C03: exceptions
 C03_FlagDirs == {<<D(n, pos)>> : n \in {"IED", "ELLIPSIS", "IGNORE_WANT"}, pos \in BOOLEAN}
